@@ -243,3 +243,93 @@ def run(repo: Repo, rep: Report, tier: str) -> None:
     delegate(repo, rep, tier, "C05", ("reactor-order", "artim-progress"), "artim-every-pass", "a peer that keeps the transport busy (streams PDUs after an abort / reject / release response) starves the ARTIM test: the provider thread, kill() and the socket outlive the ACSE timeout")
     rep.rule("reactor-resumed", "every DIMSE exchange that paused the association reactor resumes it before surfacing its final result (C24's checkpoint rule)")
     delegate(repo, rep, tier, "C24", ("checkpoint",), "reactor-resumed", "while the reactor is paused the network (idle) timeout is not enforced and a silent peer keeps the association, its provider thread and the socket alive indefinitely")
+
+    rep.rule("socket-ops", "every method called on a socket in transport.py is non-waiting or one of the waiting operations bounded by the other rules")
+    check_socket_ops(repo, rep)
+    rep.rule("timeout-propagation", "acse_timeout / network_timeout reach dul.artim_timer / dul._idle_timer: single writer (the setter), field and timer written together, initialiser goes through the property")
+    check_timeout_propagation(repo, rep)
+
+def check_timeout_propagation(repo: Repo, rep: Report, rule: str = "timeout-propagation") -> int:
+    """The timers that bound the waits live in the provider (dul.artim_timer, dul._idle_timer); the
+    configured values live in Association.acse_timeout / network_timeout. They stay equal because the
+    backing field has a single writer - the property setter - and the setter writes the timer whenever it
+    writes the field. A direct write of `_acse_timeout` / `_network_timeout` elsewhere (an initialiser
+    'pre-declaring' the field, a shortcut around the property) leaves the timer at the provider's
+    temporary default (30 s / 60 s): the configured timeout - including None, 'never' - is not the one
+    that expires."""
+    am = repo.mod("association")
+    ci = am.classes.get("Association")
+    pairs = {"acse_timeout": ("_acse_timeout", "self.dul.artim_timer.timeout"), "network_timeout": ("_network_timeout", "self.dul._idle_timer.timeout")}
+    n = 0
+    for prop, (field, timer) in pairs.items():
+        st = ci.setters.get(prop)
+        fq = f"association.Association.{prop}"
+        if st is None:
+            rep.defer(f"{fq}: setter vanished")
+            continue
+        param = st.args.args[1].arg
+        w_field = [s_ for s_ in walk_no_nested(st) if isinstance(s_, ast.Assign) and norm(s_.targets[0]) == f"self.{field}"]
+        w_timer = [s_ for s_ in walk_no_nested(st) if isinstance(s_, ast.Assign) and norm(s_.targets[0]) == timer]
+        n += 1
+        ok = len(w_field) == 1 and len(w_timer) == 1 and norm(w_field[0].value) == param and norm(w_timer[0].value) == param and parent(w_field[0]) is parent(w_timer[0])
+        rep.check(ok, rule, fq, w_timer[0] if w_timer else st, f"the setter must write the configured value to both self.{field} and {timer}, together (same block): a path that updates one without the other leaves the provider's timer running with a different timeout than the association reports", mod=am, node=st)
+        # any early exit before the pair must be an 'unchanged' test against the backing field
+        for r in [r for r in walk_no_nested(st) if isinstance(r, ast.Return)]:
+            g = enclosing(r, (ast.If,))
+            txt = norm(g.test).replace(" ", "") if g is not None else ""
+            okr = txt in (f"{param}==self.{field}", f"self.{field}=={param}")
+            rep.check(okr, rule, fq, r, "the setter returns without touching the timer on a path that is not 'value unchanged'", mod=am, node=r)
+        # single writer of the backing field
+        for fn_ in [f for f in ast.walk(ci.node) if isinstance(f, ast.FunctionDef) and f is not st]:
+            for s_ in walk_no_nested(fn_):
+                tg = s_.targets[0] if isinstance(s_, ast.Assign) else s_.target if isinstance(s_, (ast.AnnAssign, ast.AugAssign)) and getattr(s_, "value", None) is not None else None
+                if tg is not None and norm(tg) == f"self.{field}":
+                    n += 1
+                    rep.fail(rule, f"association.Association.{fn_.name}", s_, f"self.{field} is written outside the `{prop}` setter: {timer} is not updated with it and keeps the provider's temporary default, so the timeout that actually expires (ARTIM / network idle) is not the configured one - with `None` configured it still expires", mod=am, node=s_)
+        # the initialiser configures the timer through the property, after the provider exists
+        init = ci.methods.get("__init__")
+        via = [s_ for s_ in walk_no_nested(init) if isinstance(s_, (ast.Assign, ast.AnnAssign)) and norm(s_.targets[0] if isinstance(s_, ast.Assign) else s_.target) == f"self.{prop}"]
+        mk = [s_ for s_ in walk_no_nested(init) if isinstance(s_, (ast.Assign, ast.AnnAssign)) and norm(s_.targets[0] if isinstance(s_, ast.Assign) else s_.target) == "self.dul"]
+        n += 1
+        rep.check(bool(via) and bool(mk) and via[0].lineno > mk[0].lineno, rule, "association.Association.__init__", via[0] if via else f"self.{prop} = ..", f"the initialiser must set self.{prop} through the property after the provider was created: that is what gives the provider's timer the AE's configured timeout", mod=am, node=via[0] if via else init)
+    rep.floor("timeout propagation obligations", n, 4)
+    return n
+
+
+# socket methods that can wait for the peer, and where each may be used
+PEER_WAITING = {
+    "recv": "bounded by the socket timeout (recv-bounded rule)",
+    "recv_into": "as recv",
+    "connect": "runs under the connection timeout (event-waits rule)",
+    "accept": "the listening socket carries the network timeout",
+    "send": "a full send buffer: C08 does not claim the write direction (documented)",
+}
+NON_WAITING = {"bind", "close", "getsockname", "getpeername", "setsockopt", "settimeout", "gettimeout", "shutdown", "pending", "fileno", "listen", "__str__", "setblocking", "getsockopt", "detach", "family", "cipher", "version"}
+
+
+def check_socket_ops(repo: Repo, rep: Report) -> int:
+    """every method called on a socket object in transport.py is either known not to wait for the peer or
+    one of the waiting operations the other rules bound. Anything else - unwrap() (waits for the peer's TLS
+    close_notify), do_handshake(), sendall(), makefile().read ... - is a new way for a silent peer to hold
+    a thread: it must come with its own timeout argument here before it is accepted."""
+    tr = repo.mod("transport")
+    n = 0
+    for c in ast.walk(tr.tree):
+        if not (isinstance(c, ast.Call) and isinstance(c.func, ast.Attribute)):
+            continue
+        b = norm(c.func.value)
+        if not (b in ("sock", "self.socket", "client_socket", "self.request", "ssl_sock") or b.endswith(".socket") or b.endswith("_socket") or b == "sock"):
+            continue
+        if b == "socket" or b.startswith("socket."):
+            continue
+        m = c.func.attr
+        n += 1
+        fq = f"transport.{qualname(c)}"
+        if m in NON_WAITING:
+            rep.ok("socket-ops", f"{fq} :: {b}.{m}()", "does not wait for the peer")
+        elif m in PEER_WAITING:
+            rep.ok("socket-ops", f"{fq} :: {b}.{m}()", PEER_WAITING[m])
+        else:
+            rep.fail("socket-ops", fq, enclosing(c, (ast.stmt,)) or c, f"{b}.{m}() is not one of the socket operations whose waiting is bounded by the other rules: if it waits for the peer (unwrap() waits for the TLS close_notify, do_handshake() / sendall() for the peer to read) a silent peer keeps this thread - and whoever joins it - past every configured timeout", mod=tr, node=c)
+    rep.floor("socket method calls in transport.py", n, 15)
+    return n
